@@ -11,32 +11,49 @@ Property oracle (independent of the Lean model and of the code's formulas):
   (same ploidy); `__setstate__(__getstate__())` gives an equal genotype.
 * edit distance = naive memoised Levenshtein recursion on suffixes; banded: exact if lev <= maxdiff,
   else > maxdiff.
+
+Machine level (deepening): `Genotype(uint64_t index, uint32_t ploidy)`, the packed 64-bit word (`get_code()`), `==`/`<`
+between objects built by either constructor, `convert_index_to_alleles` with its narrowing of the index, and
+`binomial_coefficient` beyond its exact range are compared with the fixed-width Lean model (`Model/C19Word.lean`).
+Reached through `PhredGenotypeLikelihoods.genotypes()` (the only use of the index constructor from Python) and through
+`harness/gen/c19_shim.py` (the tree's genotype.cpp/binomial.cpp behind ctypes).  Oracle: word layout from genotype.h,
+rank/unrank by a Pascal table, the two constructors must build the same word, `<` = lexicographic order of the
+descending vectors.  Boundary: ploidy 0/15/16/17, allele 16, index = count, count+1, index + k*2^32.
 """
 import functools, itertools, json, os, sys
 
 RULE = ("genotype cases: constructor from an arbitrary-order allele list, index, as_vector, ploidy, save/restore, "
         "restore from (index, ploidy), ==/!=/< on pairs; non-trivial = ploidy >= 2 with >= 2 distinct alleles (or a pair of such). "
+        "machine-level cases: Genotype(index, ploidy) / the packed word of an allele list / genotypes() of one (ploidy, alleles) / a "
+        "mixed-origin comparison; non-trivial as above. "
         "edit-distance cases: one (s, t) pair evaluated unbanded and for every band 0..max(len)+1; non-trivial = both strings "
         "non-empty and different after removing the common prefix and suffix (the DP runs), distinct = distinct pair")
 MANIFEST = dict(
     text="Lean 4 theorems about exact models of binomial_coefficient, get_index, convert_index_to_alleles, the packed "
-         "Genotype word and of edit_distance (trimming, single-row DP, band with stale cells and early exit): index/alleles "
+         "Genotype word (both constructors, with the int/uint32 wrap-around, the narrowing of the index and the guards as executed; "
+         "index -> genotype -> index and genotype -> index -> genotype through the code's two directions, word layout and injectivity, "
+         "< = documented order, behaviour at ploidy 0/15/>=16 and beyond the count) and of edit_distance (trimming, single-row DP, band with stale cells and early exit): index/alleles "
          "round trip for every ploidy and allele count, gap-free indices with count C(p+a-1,p), ==/</save-restore agree with "
          "the index, edit_distance = Levenshtein recursion for all strings, banded result exact-or-larger for every band; "
          "models tied to the working tree by differential correspondence and an independent enumeration / naive-Levenshtein oracle",
     design_ref="DESIGN.md §5 C19",
     note="trusted: Lean kernel, axioms ⊆ {propext, Classical.choice, Quot.sound}; the hand-written models (correspondence is "
-         "differential testing: exhaustive small genotype spaces and string pairs + random large ones); C int/uint32 overflow "
-         "is stated as a separate bound (peak intermediate product < 2^31 within ploidy 14 / 16 alleles) rather than modelled; "
+         "differential testing: exhaustive small genotype spaces and string pairs + random large ones); C int/uint32 arithmetic "
+         "is modelled with wrap-around and proved equal to unbounded arithmetic within the limits; where `int` overflows (undefined "
+         "behaviour, only outside the supported range) a difference between build and model is recorded, not reported; "
+         "F55 (advertised maximum ploidy 15 not constructible) is recorded as an observation, fixes/F55.patch; "
          "pickle/copy.copy of Genotype raising TypeError (F10) is recorded as an observation, not part of save/restore as stated",
     technique="Lean 4 proof (combinatorial number system, Wagner–Fischer DP invariant with band) + differential correspondence",
 )
 ASSUMPTIONS = [
     "strings are bytes or ASCII str (edit_distance takes len() before .encode(); non-ASCII str is outside the model)",
     "maxdiff is -1 (unbanded) or >= 0 and far below 2^31 (C int overflow of j+e+1 not modelled); maxdiff < -1 is not a band width and is not exercised",
-    "allele values and indices fit uint32 (Cython conversion raises OverflowError otherwise); C++ uint32/int arithmetic is modelled "
-    "by unbounded integers, justified within the supported limits (ploidy <= 14, alleles <= 16) by the proved peak bound",
-    "binomial_coefficient is compared only where the model's peak intermediate product is < 2^31 (n <= 29 covers the supported limits)",
+    "allele values fit uint32 and indices uint64 (Cython conversion raises OverflowError otherwise); ploidy of the index constructor "
+    "is exercised up to 33 (the vector it allocates has `ploidy` entries)",
+    "binomial_coefficient is compared strictly where the model's peak intermediate product is < 2^31 (n <= 29 covers the supported "
+    "limits); beyond that signed overflow is undefined behaviour: the model wraps to 32 bits like this build, a difference is an observation",
+    "the ctypes shim compiles src/genotype.cpp + src/binomial.cpp of the tree under test separately from whatshap.core (same "
+    "sources, -std=c++11 -O2); every genotype it builds within the limits is also compared with whatshap.core.Genotype",
 ]
 
 MAXP, MAXA = 14, 16
@@ -76,6 +93,18 @@ def rank(g):
         # their first k entries are any multiset of size k over alleles < g[k-1]
         r += n_multisets(k, g[k - 1])
     return r
+
+
+def unrank(r, p):
+    """ascending genotype of ploidy p with rank r in VCF order (Pascal table, additions only)"""
+    out = []
+    for k in range(p, 0, -1):
+        x = 0
+        while n_multisets(k, x + 1) <= r:
+            x += 1
+        r -= n_multisets(k, x)
+        out.append(x)
+    return tuple(out[::-1])
 
 
 def lev_naive(s, t):
@@ -155,8 +184,20 @@ def run(ctx):
             if not os.path.realpath(mod.__file__).startswith(os.path.realpath(ctx.overlay) + os.sep):
                 from harness.common import Infra
                 raise Infra(f"{mod.__name__} was imported from {mod.__file__}, not from the overlay {ctx.overlay}")
+    if os.environ.get("C19_DEBUG"):
+        import faulthandler, signal
+        faulthandler.register(signal.SIGUSR1)
     rng = ctx.rng
     batch, meta = [], []
+    answers = []
+    from harness.gen import c19_shim
+    from harness.common import Infra
+    try:
+        shim = c19_shim.Shim()
+    except c19_shim.ShimError as e:
+        # the tree's genotype.cpp does not compile: whatshap.core would not have been built either
+        raise Infra(str(e))
+    shim_err = c19_shim.err_name
 
     def flush():
         if not batch:
@@ -234,7 +275,12 @@ def run(ctx):
 
     def do_cmp(a, b, ga=None, gb=None, model=True):
         case = {"kind": "cmp", "a": list(a), "b": list(b)}
-        ga = ga or Genotype(list(a)); gb = gb or Genotype(list(b))
+        try:
+            ga = ga or Genotype(list(a)); gb = gb or Genotype(list(b))
+        except RuntimeError as e:
+            ctx.evaluated()
+            ctx.fail(f"Genotype({list(a)}) or Genotype({list(b)}) within the limits raised {e}", case, key="geno-ctor")
+            return
         obs = {"eq": bool(ga == gb), "ne": bool(ga != gb), "lt": bool(ga < gb)}
         ctx.evaluated()
         sa, sb = sorted(a), sorted(b)
@@ -326,6 +372,18 @@ def run(ctx):
             do_enum(c["ploidy"], c["alleles"])
         elif k == "reuse":
             do_reuse(c["chain"], c["queries"])
+        elif k == "word":
+            do_word(c["alleles"])
+        elif k == "fromindex":
+            do_fromindex(c["index"], c["ploidy"], c.get("n_alleles"))
+        elif k == "genotypes":
+            do_genotypes(c["ploidy"], c["alleles"])
+        elif k == "cmpw":
+            do_cmpw(c["x"], c["y"])
+        elif k == "convert":
+            do_convert(c["index"], c["ploidy"])
+        elif k == "binom32":
+            do_binom32(c["n"], c["k"])
 
     def do_reuse(chain, queries):
         """state restore INTO AN OBJECT THAT HAS BEEN USED: one Genotype object takes the states of the genotypes of
@@ -333,6 +391,13 @@ def run(ctx):
         restore every observable must be that of a fresh genotype with those alleles"""
         case = {"kind": "reuse", "chain": [list(c) for c in chain], "queries": [list(q) for q in queries]}
         ctx.evaluated()
+        try:
+            return do_reuse_(case, chain, queries)
+        except RuntimeError as e:
+            # all genotypes of a chain are within the limits: nothing here may raise
+            ctx.fail(f"re-using one Genotype object over {case['chain']} raised {e}", case, key="geno-ctor")
+
+    def do_reuse_(case, chain, queries):
         g = Genotype(list(chain[0]))
         for step, (al, q) in enumerate(zip(chain[1:], queries)):
             for what in q:
@@ -342,7 +407,11 @@ def run(ctx):
                 elif what == "vector": g.as_vector()
                 elif what == "str": str(g)
             fresh = Genotype(list(al))
-            g.__setstate__(fresh.__getstate__())
+            try:
+                g.__setstate__(fresh.__getstate__())
+            except RuntimeError:
+                immortal(g)            # F20: the object is dangling now
+                raise
             srt = sorted(al)
             obs = {"vector": list(g.as_vector()), "index": g.get_index(), "ploidy": g.get_ploidy(),
                    "state": [int(x) for x in g.__getstate__()], "eq": bool(g == fresh), "lt": bool(g < fresh) or bool(fresh < g),
@@ -362,7 +431,12 @@ def run(ctx):
         order = vcf_order(p, a)
         idx = []
         for g in order:
-            idx.append(Genotype(list(g)).get_index())
+            try:
+                idx.append(Genotype(list(g)).get_index())
+            except RuntimeError as e:
+                ctx.evaluated()
+                ctx.fail(f"Genotype({list(g)}) within the limits raised {e}", case, key="geno-ctor")
+                return
         ctx.evaluated()
         if idx != list(range(len(order))):
             bad = next(i for i, x in enumerate(idx) if x != i)
@@ -377,11 +451,222 @@ def run(ctx):
             ctx.disagree("c19.enum", case, "vcf order", "model differs from VCF order")
         ctx.nontrivial(("enum", p, a))
 
+
+    # ---------------------------------------------------------------- machine level (deepening): the index constructor,
+    # the packed word, the order, narrowing.  `shim` = src/genotype.cpp + src/binomial.cpp of the tree under test behind ctypes.
+    U32 = 2 ** 32
+
+    def expected_code(desc, ploidy):
+        """layout documented in genotype.h: nibble 15 = ploidy, nibble q < ploidy = q-th largest allele"""
+        w = ploidy << 60
+        for q, x in enumerate(desc):
+            w |= x << (4 * q)
+        return w
+
+    def defined_territory(index, ploidy):
+        """inputs on which no `int` overflows inside binomial_coefficient (signed overflow is undefined behaviour: there the
+        model states what this build does, and a difference is recorded, not reported)"""
+        i32 = index % U32
+        if ploidy == 0:
+            return True
+        if ploidy <= 14:
+            return i32 <= n_multisets(ploidy, 16)
+        if ploidy == 15:
+            return i32 <= n_multisets(15, 15)
+        return i32 <= 3
+
+    def differ(op, case, impl, got, strict):
+        if impl == got:
+            return
+        if strict:
+            ctx.disagree(op, case, impl, got)
+        else:
+            ctx.observe(f"outside the supported range AND in undefined-behaviour territory (int overflow): {op} {case}: impl {impl}, model {got}")
+
+    def strip_ideal(ans):
+        """the model reports get_index twice: as executed (uint32) and on unbounded integers; within the limits they coincide"""
+        if isinstance(ans, dict) and "index_ideal" in ans:
+            ans = dict(ans); ans.pop("index_ideal")
+        return ans
+
+    def check_word_obs(obs, asc, case, what):
+        """property-level expectations for a successfully built genotype with ascending alleles `asc` (within the limits)"""
+        p = len(asc)
+        exp = {"code": str(expected_code(asc[::-1], p)), "vector": asc[::-1], "index": rank(asc), "ploidy": p, "none": p == 0,
+               "hom": p > 0 and len(set(asc)) == 1, "dipbi": p == 2 and max(asc) <= 1, "str": list(asc) if p else None}
+        if obs != exp:
+            diff = {k: (obs.get(k), exp[k]) for k in exp if obs.get(k) != exp[k]}
+            ctx.fail(f"{what}: {diff} (observed, expected)", case, key="word-" + sorted(diff)[0])
+
+    def do_binom32(n, k):
+        """binomial_coefficient beyond the supported table: `int` wrap-around as executed"""
+        case = {"kind": "binom32", "n": n, "k": k}
+        v, v2 = binomial_coefficient(n, k), shim.binom(n, k)
+        ctx.evaluated()
+        if v != v2:
+            ctx.observe(f"binomial_coefficient({n},{k}) = {v} in whatshap.core but {v2} in a separate compilation of binomial.cpp (undefined behaviour made visible)")
+        peak = ctx.model.ask("c19.binom", n=n, k=k)["peak"] if abs(n) < 10 ** 6 and abs(k) < 10 ** 6 else 2 ** 31
+        ans = ctx.model.ask("c19.binom32", n=n, k=k)
+        differ("c19.binom32", case, v, ans, strict=(peak < 2 ** 31))
+
+    def do_word(alleles):
+        """vector constructor seen through the C++ interface: packed word, observers; tied to whatshap.core"""
+        case = {"kind": "word", "alleles": list(alleles)}
+        obs = shim.from_alleles(list(alleles))
+        ctx.evaluated()
+        p = len(alleles)
+        if p < 15 and all(x < 16 for x in alleles):
+            if "err" in obs:
+                ctx.fail(f"Genotype({list(alleles)}) within the limits raised {obs}", case, key="geno-ctor")
+            else:
+                check_word_obs(obs, sorted(alleles), case, f"C++ Genotype({list(alleles)})")
+                try:
+                    g = Genotype(list(alleles))
+                except RuntimeError as e:
+                    ctx.fail(f"whatshap.core.Genotype({list(alleles)}) raised {e}, the separately compiled class did not", case, key="word-module")
+                    return
+                via_module = {"vector": list(g.as_vector()), "index": g.get_index(), "ploidy": g.get_ploidy(), "none": bool(g.is_none()),
+                              "hom": bool(g.is_homozygous()), "dipbi": bool(g.is_diploid_and_biallelic()),
+                              "str": None if str(g) == "." else [int(x) for x in str(g).split("/")], "hash": hash(g)}
+                direct = {k: obs[k] for k in via_module if k != "hash"}
+                direct["hash"] = hash(obs["index"])
+                if via_module != direct:
+                    ctx.fail(f"whatshap.core.Genotype({list(alleles)}) reports {via_module}, the C++ class {direct}", case, key="word-module")
+                if len(set(alleles)) >= 2:
+                    ctx.nontrivial(("w",) + tuple(sorted(alleles)))
+        ask({"op": "c19.word", "alleles": list(alleles)}, case, obs, proj=strip_ideal)
+
+    def do_fromindex(index, ploidy, n_alleles=None):
+        """Genotype(uint64_t index, uint32_t ploidy); n_alleles: if given, index < count(ploidy, n_alleles)"""
+        case = {"kind": "fromindex", "index": index, "ploidy": ploidy, "n_alleles": n_alleles}
+        obs = shim.from_index(index, ploidy)
+        ctx.evaluated()
+        ctx.dist("index-ctor ploidy", ploidy)
+        if n_alleles is not None and 1 <= ploidy <= 14 and n_alleles <= 16:
+            if "err" in obs:
+                ctx.fail(f"Genotype(index={index}, ploidy={ploidy}) raised {obs} although index < count({ploidy},{n_alleles})", case, key="fromindex-raise")
+            else:
+                asc = obs["vector"][::-1]
+                if len(asc) != ploidy or asc != sorted(asc) or rank(asc) != index:
+                    ctx.fail(f"Genotype(index={index}, ploidy={ploidy}) = {asc}: not the genotype of rank {index} (its rank: {rank(sorted(asc))})", case, key="fromindex-rank")
+                elif asc and asc[-1] >= n_alleles:
+                    ctx.fail(f"Genotype(index={index}, ploidy={ploidy}) uses allele {asc[-1]} >= {n_alleles}", case, key="fromindex-range")
+                else:
+                    check_word_obs(obs, asc, case, f"Genotype(index={index}, ploidy={ploidy})")
+                    # the two coded directions meet: the vector constructor on these alleles builds the same word, and
+                    # get_index of it is the index we started from
+                    back = shim.from_alleles(asc)
+                    if back != obs:
+                        ctx.fail(f"Genotype(index={index}, ploidy={ploidy}) and Genotype({asc}) differ: {obs} vs {back}", case, key="fromindex-vs-vector")
+                    if n_alleles <= 7 and ploidy <= 7 and asc != list(vcf_order(ploidy, n_alleles)[index]):
+                        ctx.fail(f"Genotype(index={index}, ploidy={ploidy}) = {asc}, VCF order has {list(vcf_order(ploidy, n_alleles)[index])}", case, key="fromindex-enum")
+                    if len(set(asc)) >= 2:
+                        ctx.nontrivial(("fi", index, ploidy))
+        answers.append(({"op": "c19.fromindex", "index": str(index), "ploidy": ploidy}, case, obs, defined_territory(index, ploidy)))
+        if len(answers) >= 400:
+            flush_answers()
+
+    def do_genotypes(p, a):
+        """PhredGenotypeLikelihoods(gl, p, a).genotypes(): the index constructor as reachable from Python"""
+        from whatshap.core import PhredGenotypeLikelihoods
+        case = {"kind": "genotypes", "ploidy": p, "alleles": a}
+        size = binomial_coefficient(p + a - 1, a - 1)
+        ctx.evaluated()
+        if p <= 14 and 1 <= a <= 16 and size != n_multisets(p, a):
+            ctx.fail(f"number of genotype likelihoods expected for ploidy {p}, {a} alleles is {size}, there are {n_multisets(p, a)} genotypes", case, key="genotypes-count")
+            return
+        try:
+            gl = PhredGenotypeLikelihoods([0.0] * size, p, a)
+        except RuntimeError as e:
+            ctx.fail(f"PhredGenotypeLikelihoods of size {size} for ploidy {p}, {a} alleles raised {e}", case, key="genotypes-ctor")
+            return
+        try:
+            obs = {"vectors": [list(g.as_vector()) for g in gl.genotypes()]}
+        except RuntimeError as e:
+            obs = shim_err(str(e))
+        if 1 <= p <= 14 and 1 <= a <= 16:
+            exp = [list(g[::-1]) for g in vcf_order(p, a)] if (p <= 7 and a <= 7) else None
+            if "err" in obs:
+                ctx.fail(f"genotypes() for ploidy {p}, {a} alleles raised {obs}", case, key="genotypes-raise")
+            elif len(obs["vectors"]) != size or any(rank(v[::-1]) != i or v != sorted(v, reverse=True) for i, v in enumerate(obs["vectors"])) \
+                    or (exp is not None and obs["vectors"] != exp):
+                bad = next((i for i, v in enumerate(obs["vectors"]) if rank(sorted(v)) != i or v != sorted(v, reverse=True)), None)
+                ctx.fail(f"genotypes() for ploidy {p}, {a} alleles is not the list of genotypes in index order "
+                         f"(first wrong: position {bad}: {obs['vectors'][bad] if bad is not None else '-'})", case, key="genotypes-order")
+            else:
+                ctx.nontrivial(("gts", p, a))
+        ask({"op": "c19.enumindex", "ploidy": p, "size": size}, case, obs)
+
+    def do_cmpw(x, y):
+        """==, !=, < between C++ genotypes of either origin: x, y = ["a", alleles] or ["i", index, ploidy]"""
+        case = {"kind": "cmpw", "x": list(x), "y": list(y)}
+        obs = shim.cmp(tuple(x), tuple(y))
+        ctx.evaluated()
+        req = {"op": "c19.cmpw"}
+        sides = []
+        for name, z in (("a", x), ("b", y)):
+            if z[0] == "a":
+                req[name] = list(z[1]); sides.append(sorted(z[1]) if len(z[1]) < 15 and all(v < 16 for v in z[1]) else None)
+            else:
+                req[name + "_index"] = [z[1], z[2]]
+                sides.append(list(unrank(z[1], z[2])) if 1 <= z[2] <= 14 and z[1] < n_multisets(z[2], 16) else None)
+        if None not in sides and "err" not in obs:
+            sa, sb = sides
+            if obs["ne"] == obs["eq"]:
+                ctx.fail(f"{sa} == {sb} is {obs['eq']} but != is {obs['ne']}", case, key="cmp-ne")
+            if obs["eq"] != (sa == sb):
+                ctx.fail(f"{sa} == {sb} is {obs['eq']} (genotypes built by {x[0]}/{y[0]} constructors)", case, key="cmpw-eq")
+            if len(sa) == len(sb):
+                if obs["lt"] != (rank(sa) < rank(sb)):
+                    ctx.fail(f"{sa} < {sb} is {obs['lt']} but indices are {rank(sa)}, {rank(sb)}", case, key="cmp-lt")
+                # the documented order: the largest allele decides first = lexicographic on the descending vectors
+                if obs["lt"] != (sa[::-1] < sb[::-1]):
+                    ctx.fail(f"{sa} < {sb} is {obs['lt']}, the documented enumeration order says {sa[::-1] < sb[::-1]}", case, key="cmpw-lex")
+                if len(set(sa)) >= 2 and len(set(sb)) >= 2:
+                    ctx.nontrivial(("cw",) + tuple(sa) + (-1,) + tuple(sb))
+            ask(req, case, dict(obs, lex=(sa[::-1] < sb[::-1])))
+        else:
+            ask(req, case, obs, proj=lambda a: {k: v for k, v in a.items() if k != "lex"})
+
+    def do_convert(index, ploidy):
+        """convert_index_to_alleles / __setstate__ with the index narrowed to 32 bits (index may exceed 2^32)"""
+        case = {"kind": "convert", "index": index, "ploidy": ploidy}
+        raw = shim.convert(index, ploidy)
+        h = Genotype([])
+        try:
+            h.__setstate__((index, ploidy))
+            geno = {"vector": list(h.as_vector()), "index": h.get_index(), "ploidy": h.get_ploidy()}
+        except RuntimeError as e:
+            immortal(h)
+            geno = err_of(e)
+        ctx.evaluated()
+        if index >= U32 and 1 <= ploidy <= 14 and index % U32 < n_multisets(ploidy, 16) and "err" not in geno:
+            ctx.observe("narrowing: __setstate__((i + k*2^32, ploidy)) silently restores the genotype of index i (uint64_t index is assigned "
+                        "to uint32_t in convert_index_to_alleles, e.g. (4294967301, 3) -> 0/1/2); outside the supported range, equal to the model")
+        answers.append(({"op": "c19.convert", "index": str(index), "ploidy": ploidy}, case, {"raw": raw, "geno": geno},
+                        defined_territory(index, ploidy)))
+        if len(answers) >= 400:
+            flush_answers()
+
+    def flush_answers():
+        if not answers:
+            return
+        res = ctx.model.ask_many([a[0] for a in answers])
+        for (req, case, impl, strict), ans in zip(answers, res):
+            if req["op"] == "c19.convert":
+                g = ans.get("geno", {})
+                ans = {"raw": ans.get("raw"), "geno": g if "err" in g else {k: g.get(k) for k in ("vector", "index", "ploidy")}}
+            else:
+                ans = strip_ideal(ans)
+            differ(req["op"], case, impl, ans, strict)
+        answers.clear()
+
     # ---------------------------------------------------------------- replay / corpus
     if ctx.replay:
-        do_case(json.load(open(ctx.replay))["case"]); flush(); return
+        do_case(json.load(open(ctx.replay))["case"]); flush(); flush_answers(); return
     for _, c in ctx.corpus():
         do_case(c)
+    flush_answers()
 
     # ---------------------------------------------------------------- restore into used objects
     for _ in range((400 if ctx.quick else 6000) * ctx.scale):
@@ -398,7 +683,11 @@ def run(ctx):
 
     # ---------------------------------------------------------------- F10 observation: pickle / copy
     for al in ([0, 1], [2, 0, 1, 1], []):
-        g = Genotype(al)
+        try:
+            g = Genotype(al)
+        except RuntimeError as e:
+            ctx.fail(f"Genotype({al}) raised {e}", {"kind": "geno", "alleles": al}, key="geno-ctor")
+            continue
         for name, f in (("pickle", lambda x: pickle.loads(pickle.dumps(x))), ("copy.copy", copy.copy), ("copy.deepcopy", copy.deepcopy)):
             try:
                 h = f(g)
@@ -489,6 +778,126 @@ def run(ctx):
                     f"{'process survives' if 'alive' in out and r.returncode == 0 else 'process aborts (double free: thisptr deleted before the throwing constructor)'}; "
                     f"model: {mdl.get('err', 'ok')}")
     flush()
+
+    # ---------------------------------------------------------------- deepening: index constructor, packed word, order, narrowing
+    lim = ctx.model.ask("c19.limits")
+    impl_lim = {"max_ploidy": whatshap.core.get_max_genotype_ploidy(), "max_alleles": whatshap.core.get_max_genotype_alleles()}
+    if impl_lim != {"max_ploidy": shim.lib.c19_max_ploidy(), "max_alleles": shim.lib.c19_max_alleles()}:
+        ctx.fail(f"whatshap.core reports limits {impl_lim}, genotype.cpp others", {"kind": "limits"}, key="limits-module")
+    as_coded = {"max_ploidy": lim["max_ploidy"], "max_alleles": lim["max_alleles"]}
+    repaired = {"max_ploidy": lim["max_ploidy_repaired"], "max_alleles": lim["max_alleles"]}      # fixes/F55.patch
+    if impl_lim not in (as_coded, repaired):
+        ctx.disagree("c19.limits", {"kind": "limits"}, impl_lim, [as_coded, repaired])
+    if shim.lib.c19_empty_code() != 0:
+        ctx.fail("Genotype() is not the zero word", {"kind": "limits"}, key="word-empty")
+    # F55: is the advertised maximum ploidy constructible?  (vcf.py lets ploidy <= get_max_genotype_ploidy() through)
+    mp = impl_lim["max_ploidy"]
+    adv = shim.from_alleles([0] * mp)
+    if "err" in adv:
+        how = "?"
+        wd = ctx.workdir()
+        try:
+            from whatshap.vcf import VcfReader
+            path = os.path.join(wd, "f55.vcf")
+            with open(path, "w") as f:
+                f.write("##fileformat=VCFv4.2\n##contig=<ID=chr1,length=1000>\n##FORMAT=<ID=GT,Number=1,Type=String,Description=\"g\">\n"
+                        "#CHROM\tPOS\tID\tREF\tALT\tQUAL\tFILTER\tINFO\tFORMAT\ts1\n"
+                        "chr1\t100\t.\tA\tC\t.\t.\t.\tGT\t" + "/".join(["0"] * (mp - 1) + ["1"]) + "\n")
+            try:
+                for _ in VcfReader(path, ploidy=None):
+                    pass
+                how = "is read"
+            except Exception as e:
+                how = f"makes VcfReader raise {type(e).__name__}: {str(e)[:60]}"
+        finally:
+            import shutil
+            shutil.rmtree(wd, ignore_errors=True)
+        ctx.observe(f"F55: get_max_genotype_ploidy() = {mp} (used by vcf.py for its PloidyError), but Genotype([0]*{mp}) raises "
+                    f"{adv['err']!r} (vector constructor: ploidy >= MAX_PLOIDY); Genotype(index, {mp}) is accepted: "
+                    f"{'yes' if 'err' not in shim.from_index(0, mp) else 'no'}; a VCF with a GT of ploidy {mp} {how}; "
+                    f"the limits the property names are 14/16; fixes/F55.patch makes the advertised limit {mp - 1}")
+    else:
+        for _ in range(20):
+            do_word([rng.randrange(16) for _ in range(mp)])
+            do_geno([rng.randrange(16) for _ in range(mp)])
+    # exhaustive small space through both constructors
+    n_fi = 0
+    for p in range(0, EP + 1):
+        for a in range(1, EA + 1):
+            do_genotypes(p, a)
+            cnt = n_multisets(p, a)
+            for i in range(cnt):
+                do_fromindex(i, p, a if p >= 1 else None); n_fi += 1
+            for i in (cnt, cnt + 1):           # just beyond the genotypes over `a` alleles (still valid genotypes, over a+1 / a+2 alleles)
+                do_fromindex(i, p, None)
+        for g in vcf_order(p, EA):
+            perm = list(g); rng.shuffle(perm)
+            do_word(perm)
+    ctx.extra["exhaustive_index_ctor_ploidy_le_%d_alleles_le_%d" % (EP, EA)] = n_fi
+    words = [g for p in range(1, 4) for g in vcf_order(p, 4)]
+    for x in words:                            # all pairs of a small space, mixed origin of the two objects
+        for y in words:
+            o = rng.randrange(4)
+            X = ["a", list(x)] if o & 1 else ["i", rank(x), len(x)]
+            Y = ["a", list(y)] if o & 2 else ["i", rank(y), len(y)]
+            do_cmpw(X, Y)
+    flush(); flush_answers()
+    # sampled up to the limits; upper nibbles (ploidy 9..14 puts alleles above bit 32 of the word) get half of the weight
+    n_deep = (2500 if ctx.quick else 40000) * ctx.scale
+    pool = []
+    for i in range(n_deep):
+        if plenty():
+            break
+        p = rng.randrange(9, MAXP + 1) if rng.random() < 0.5 else rng.randrange(1, MAXP + 1)
+        a = rng.randrange(1, MAXA + 1) if rng.random() < 0.7 else MAXA
+        cnt = n_multisets(p, a)
+        r = rng.random()
+        idx = cnt - 1 if r < 0.1 else (rng.randrange(cnt) if r < 0.8 else int(cnt * rng.random() ** 3))
+        do_fromindex(idx, p, a)
+        al = list(unrank(idx, p)); rng.shuffle(al)
+        do_word(al)
+        pool.append((idx, p, al))
+        if i % 3 == 0 and len(pool) > 1:
+            (i1, p1, a1), (i2, p2, a2) = rng.choice(pool), rng.choice(pool)
+            if rng.random() < 0.6:             # same ploidy, close by in the order
+                p2 = p1; i2 = max(0, min(n_multisets(p1, 16) - 1, i1 + rng.randrange(-3, 4))); a2 = list(unrank(i2, p2))
+            do_cmpw(["a", a1] if rng.random() < 0.5 else ["i", i1, p1], ["a", a2] if rng.random() < 0.5 else ["i", i2, p2])
+    # genotypes() for larger (ploidy, alleles): whole index ranges through Genotype(i, ploidy)
+    budget = (30000 if ctx.quick else 600000) * ctx.scale
+    tries = 0
+    while budget > 0 and tries < 400 and not plenty():
+        tries += 1
+        p, a = rng.randrange(1, MAXP + 1), rng.randrange(1, MAXA + 1)
+        if n_multisets(p, a) <= min(budget, 60000):
+            budget -= n_multisets(p, a) + 200
+            do_genotypes(p, a)
+    # the boundary of the representable range, and just beyond it
+    for p in (1, 2, 7, 8, 9, 13, 14):
+        c16 = n_multisets(p, 16)
+        for i in (c16 - 1, c16, c16 + 1, c16 + 2, c16 - 1 + U32, c16 + U32, U32, 2 ** 63 + 5, 2 ** 64 - U32 + 3):
+            do_fromindex(i, p, 16 if i < c16 else None)
+            do_convert(i, p)
+    for p in (0, 15, 16, 17, 18, 31, 32, 33):
+        for i in (0, 1, 2, 3):
+            do_fromindex(i, p, None)
+    c15 = n_multisets(15, 15)
+    for i in (c15 - 1, c15, 5 + U32, rng.randrange(c15), rng.randrange(c15), n_multisets(15, 16) - 1, n_multisets(15, 16)):
+        do_fromindex(i, 15, None)
+    for al in ([15] * 14, [0] * 14, [15] * 15, [0] * 15, [0] * 16, [16], [2 ** 32 - 1, 0], [15, 16], list(range(14)), list(range(2, 16))):
+        do_word(al)
+    do_genotypes(0, 3); do_genotypes(15, 1); do_genotypes(16, 1); do_genotypes(17, 1); do_genotypes(1, 17); do_genotypes(2, 17)
+    do_genotypes(15, 2); do_genotypes(14, 1); do_genotypes(1, 16); do_genotypes(14, 2)
+    for _ in range(40 if ctx.quick else 400):
+        p = rng.randrange(1, MAXP + 1)
+        do_convert(rng.randrange(n_multisets(p, 16)) + U32 * rng.randrange(0, 2 ** 32), p)
+    # binomial_coefficient beyond the supported table (n <= 29 is all the genotype code needs)
+    for n in range(28, 48):
+        for k in range(-1, n + 2):
+            do_binom32(n, k)
+    for n, k in ((2 ** 31 - 1, 1), (2 ** 31 - 1, 2), (2 ** 31 - 1, 2 ** 31 - 2), (2 ** 31 - 1, 2 ** 31 - 1), (-2 ** 31, 0), (0, -2 ** 31),
+                 (65536, 2), (65537, 2), (92682, 2), (2345, 3), (100000, 99997)):
+        do_binom32(n, k)
+    flush(); flush_answers()
 
     # ---------------------------------------------------------------- edit distance: exhaustive small pairs
     L2 = 5 if ctx.quick else 7
